@@ -1031,11 +1031,96 @@ func evalBool(st *pstate, b *Sym) (bool, bool) {
 				return constant.Compare(ca, b.Op, cb), true
 			}
 		}
+		if v, ok := st.facts[b.Key()]; ok {
+			return v, true
+		}
+		// the same ordering fact recorded in another spelling: a<b ≡ !(a>=b) ≡ b>a ≡ !(b<=a), through widening integer conversions
+		if b.Op != token.EQL && b.Op != token.NEQ {
+			x, y := stripWidening(b.A), stripWidening(b.B)
+			for _, alt := range []struct {
+				op   token.Token
+				a, b *Sym
+				neg  bool
+			}{{b.Op, x, y, false}, {negOrd(b.Op), x, y, true}, {swapOrd(b.Op), y, x, false}, {negOrd(swapOrd(b.Op)), y, x, true}} {
+				for _, aa := range []*Sym{alt.a, b.A, b.B} {
+					for _, bb := range []*Sym{alt.b, b.A, b.B} {
+						if (aa == b.A || aa == b.B) && aa != alt.a && aa.Key() != alt.a.Key() && stripWidening(aa).Key() != alt.a.Key() {
+							continue
+						}
+						if (bb == b.A || bb == b.B) && bb != alt.b && bb.Key() != alt.b.Key() && stripWidening(bb).Key() != alt.b.Key() {
+							continue
+						}
+						if v, ok := st.facts[(&Sym{K: sCmp, Op: alt.op, A: aa, B: bb}).Key()]; ok {
+							return v != alt.neg, true
+						}
+					}
+				}
+			}
+		}
 	}
 	if v, ok := st.facts[b.Key()]; ok {
 		return v, true
 	}
 	return false, false
+}
+
+func negOrd(op token.Token) token.Token {
+	switch op {
+	case token.LSS:
+		return token.GEQ
+	case token.GEQ:
+		return token.LSS
+	case token.GTR:
+		return token.LEQ
+	case token.LEQ:
+		return token.GTR
+	}
+	return op
+}
+
+func swapOrd(op token.Token) token.Token {
+	switch op {
+	case token.LSS:
+		return token.GTR
+	case token.GTR:
+		return token.LSS
+	case token.LEQ:
+		return token.GEQ
+	case token.GEQ:
+		return token.LEQ
+	}
+	return op
+}
+
+// stripWidening removes integer conversions that cannot change the value (same signedness, not narrower).
+func stripWidening(s *Sym) *Sym {
+	for s != nil && s.K == sConvert && s.A != nil && s.T != nil && s.A.T != nil {
+		from, ok1 := s.A.T.Underlying().(*types.Basic)
+		to, ok2 := s.T.Underlying().(*types.Basic)
+		if !ok1 || !ok2 || from.Info()&types.IsInteger == 0 || to.Info()&types.IsInteger == 0 {
+			break
+		}
+		if (from.Info()&types.IsUnsigned != 0) != (to.Info()&types.IsUnsigned != 0) {
+			break
+		}
+		if intBits(to) < intBits(from) {
+			break
+		}
+		s = s.A
+	}
+	return s
+}
+
+func intBits(b *types.Basic) int {
+	switch b.Kind() {
+	case types.Int8, types.Uint8:
+		return 8
+	case types.Int16, types.Uint16:
+		return 16
+	case types.Int32, types.Uint32:
+		return 32
+	}
+	return 64
 }
 
 // constValue: the integer constant a sym is (known to be equal to) on this path.
